@@ -12,7 +12,7 @@
    refinement (`_chiral_morgan`) is not covered by theorems: search in harness/checks/C01.py. *)
 From Coq Require Import ZArith List Bool Permutation Sorting.Sorted String.
 From Model Require Import PyBase PyHash Graph Morgan Writer.
-From Proofs Require Import MorganProofs WriterInvProofs.
+From Proofs Require Import MorganProofs WriterInvProofs WriterStereoExt BfsExt TraverseOrderExt.
 Import ListNotations.
 Open Scope Z_scope.
 
@@ -395,3 +395,121 @@ Theorem C01_unlabelled_example :
   smiles_text (ren_mol ex_s ex_g) (lbl (ren_labels ex_s exw_l)) (fun n => - n) default_opts no_stabs = Ok ("CCO"%string, [9; 8; 7]).
 Proof. exact unlabelled_example. Qed.
 Print Assumptions C01_unlabelled_example.
+
+(* ---- strings WITH stereo marks ---- *)
+(* the token functions with stereo marks under a renumbering that keeps the insertion orders: registries, neighbour table and
+   cis/trans map renamed, same token (s fixes 0 because `__ct_map` tests an atom number for truthiness) *)
+Theorem C01_format_atom_equivariant : forall (s : Z -> Z), (forall x y, s x = s y -> x = y) ->
+  forall (g : mol) (o : opts) (tabs : stabs) (n : Z) (adj : adjacency), o_mapping o = false ->
+  format_atom (ren_mol s g) o (ren_tabs s tabs) (s n) (ren_vis s adj) = format_atom g o tabs n adj.
+Proof. exact format_atom_ren. Qed.
+Print Assumptions C01_format_atom_equivariant.
+
+Theorem C01_ct_map_equivariant : forall (s : Z -> Z), (forall x y, s x = s y -> x = y) ->
+  forall (g : mol) (tabs : stabs), s 0 = 0 -> forall adj : adjacency,
+  ct_map (ren_mol s g) (ren_tabs s tabs) (ren_vis s adj) = ren_pmres s (ct_map g tabs adj).
+Proof. exact ct_map_ren. Qed.
+Print Assumptions C01_ct_map_equivariant.
+
+Theorem C01_format_bond_equivariant : forall (s : Z -> Z), (forall x y, s x = s y -> x = y) ->
+  forall (g : mol) (o : opts) (tabs : stabs), s 0 = 0 -> forall (adj : adjacency) (n m : Z),
+  format_bond (ren_mol s g) o (ct_map (ren_mol s g) (ren_tabs s tabs) (ren_vis s adj)) (s n) (s m) = format_bond g o (ct_map g tabs adj) n m.
+Proof. exact format_bond_ren. Qed.
+Print Assumptions C01_format_bond_equivariant.
+
+(* DESIGN appendix A smiles_invariant_discrete with stereo marks, for renumberings that keep the insertion orders (remap()):
+   NO formatter hypothesis.  Still missing for the full DESIGN statement: renumberings that also change the insertion order of
+   atoms / neighbours (the stereo signs then need the parity lemmas of C12 and the BFS labels their shortest-path meaning) *)
+Theorem C01_smiles_invariant_discrete_remap : forall (g : mol) (s w w' tb tb' : Z -> Z) (o : opts) (tabs : stabs),
+  wf_mol g = true -> (forall x y, s x = s y -> x = y) -> s 0 = 0 -> inj_on (ids g) w -> (forall n, In n (ids g) -> w' (s n) = w n) ->
+  o_mapping o = false ->
+  smiles_text (ren_mol s g) w' tb' o (ren_tabs s tabs) = map_order s (smiles_text g w tb o tabs).
+Proof. exact smiles_invariant_discrete_remap. Qed.
+Print Assumptions C01_smiles_invariant_discrete_remap.
+
+Theorem C01_remap_stereo_example :
+  wf_mol exs_g = true /\ (forall x y, exs_s x = exs_s y -> x = y) /\ exs_s 0 = 0 /\ inj_on (ids exs_g) exs_w /\
+  (forall n, In n (ids exs_g) -> exs_w' (exs_s n) = exs_w n) /\ o_mapping default_opts = false /\
+  smiles_text exs_g exs_w (fun n => n) default_opts exs_tabs = Ok ("O[C@@H](N)C"%string, [4; 2; 3; 1]) /\
+  smiles_text (ren_mol exs_s exs_g) exs_w' (fun n => - n) default_opts (ren_tabs exs_s exs_tabs) = Ok ("O[C@@H](N)C"%string, [28; 14; 21; 7]).
+Proof. exact remap_stereo_example. Qed.
+Print Assumptions C01_remap_stereo_example.
+
+(* ---- insertion order: the BFS labels ("BFS nearest to starting" part of the sort key) ---- *)
+(* the queue BFS of the first component satisfies an order-free specification: the start atom has label 0, every other labelled
+   atom has label d >= 1 and a neighbour with label d - 1, the labelled set is closed under neighbours and the label grows by
+   at most 1 along an edge (so the label is the graph distance); the fuel S n_atoms suffices *)
+Theorem C01_bfs_first_component_spec : forall (g : mol) (start : Z),
+  (forall n, incl (nbr_ids g n) (ids g)) -> (forall n, NoDup (nbr_ids g n)) -> In start (ids g) ->
+  bfs_spec g start (bfs g (S (List.length (ids g))) [(start, 1)] [(start, 0)]).
+Proof. exact bfs_first_component_spec. Qed.
+Print Assumptions C01_bfs_first_component_spec.
+
+(* two labelings that satisfy the specification over the same neighbour relation are equal *)
+Theorem C01_bfs_spec_unique : forall (g1 g2 : mol) (start : Z) (R1 R2 : list (Z * Z)),
+  (forall y x, In x (nbr_ids g1 y) <-> In x (nbr_ids g2 y)) -> bfs_spec g1 start R1 -> bfs_spec g2 start R2 ->
+  forall x, zget R1 x = zget R2 x.
+Proof. exact bfs_spec_unique. Qed.
+Print Assumptions C01_bfs_spec_unique.
+
+(* hence the BFS labels do not depend on the order in which atoms, adjacency rows and neighbours were inserted.
+   _partial towards insertion-order invariance of the string: the DFS / emission under permuted neighbour lists and the parity
+   of the stereo signs are not carried through yet; later components (BFS started on a non-empty `seen`) are not covered *)
+Theorem C01_smiles_invariant_discrete_partial_bfs_order : forall (g1 g2 : mol) (start : Z),
+  wf_mol g1 = true -> wf_mol g2 = true -> mol_perm g1 g2 -> In start (ids g1) ->
+  forall x, zget (bfs g1 (S (n_atoms g1)) [(start, 1)] [(start, 0)]) x = zget (bfs g2 (S (n_atoms g2)) [(start, 1)] [(start, 0)]) x.
+Proof. exact bfs_order_independent_wf. Qed.
+Print Assumptions C01_smiles_invariant_discrete_partial_bfs_order.
+
+Theorem C01_bfs_example :
+  wf_mol exb_g1 = true /\ wf_mol exb_g2 = true /\ mol_perm exb_g1 exb_g2 /\ In 1 (ids exb_g1) /\
+  bfs exb_g1 (S (n_atoms exb_g1)) [(1, 1)] [(1, 0)] = [(1, 0); (2, 1); (3, 2); (4, 2)] /\
+  bfs exb_g2 (S (n_atoms exb_g2)) [(1, 1)] [(1, 0)] = [(1, 0); (2, 1); (4, 2); (3, 2)].
+Proof. exact bfs_example. Qed.
+Print Assumptions C01_bfs_example.
+
+(* ---- renumbering AND re-insertion (atoms, adjacency rows, neighbours listed in any other order): the first component ---- *)
+(* every DFS step when the neighbour lists of g' are permutations of the renamed neighbour lists of g *)
+Theorem C01_smiles_invariant_discrete_partial_dfs_insertion_order : forall (s : Z -> Z), (forall x y, s x = s y -> x = y) ->
+  forall (g g' : mol) (all : list Z) (key key' : Z -> Z -> list Z), (forall n, incl (nbr_ids g n) all) ->
+  (forall n, Permutation (map s (nbr_ids g n)) (nbr_ids g' (s n))) ->
+  (forall p l l', incl l all -> Permutation (map s l) l' -> sort_by (key' (s p)) l' = map s (sort_by (key p) l)) ->
+  forall (fuel : nat) (st : dfs_st),
+  iter_opt fuel (dfs_step g' key') (ren_dfs s st) = option_map (ren_dfs s) (iter_opt fuel (dfs_step g key) st).
+Proof. exact dfs_perm. Qed.
+Print Assumptions C01_smiles_invariant_discrete_partial_dfs_insertion_order.
+
+(* start atom, BFS labels (pointwise) and DFS result of the first component *)
+Theorem C01_smiles_invariant_discrete_partial_traverse_insertion_order :
+  forall (g g' : mol) (s w w' tb tb' : Z -> Z) (o : opts),
+  wf_mol g = true -> wf_mol g' = true -> (forall x y, s x = s y -> x = y) -> mol_perm (ren_mol s g) g' ->
+  inj_on (ids g) w -> (forall n, In n (ids g) -> w' (s n) = w n) ->
+  forall st st' : wstate, incl (ws_atoms st) (ids g) -> Permutation (map s (ws_atoms st)) (ws_atoms st') ->
+  ws_seen st = [] -> ws_seen st' = [] -> ws_cycle st' = ws_cycle st ->
+  trav_rel s (traverse g w tb o (ids g) st) (traverse g' w' tb' o (ids g') st').
+Proof. exact traverse_first_perm. Qed.
+Print Assumptions C01_smiles_invariant_discrete_partial_traverse_insertion_order.
+
+(* with the weights the Morgan model computes: when the classes of atoms_order are discrete, the token list of the first component
+   (atoms, bonds, parentheses: branch structure and the order in which the atoms are written; the whole molecule when it is
+   connected) is the renamed list for ANY renumbering and ANY insertion order, any tie-breaks, every hash function.
+   Missing for the string: closure numbers / emission are proved for renamed inputs (above) but the token functions under
+   re-insertion (hybridization fold, stereo parity) and later components (BFS on a non-empty `seen`) are not *)
+Theorem C01_canonical_first_component_tokens :
+  forall (h : list Z -> Z) (ring ring' : Z -> bool) (g g' : mol) (s tb tb' : Z -> Z) (o : opts) (l : labels),
+  wf_mol g = true -> wf_mol g' = true -> (forall x y, s x = s y -> x = y) -> (forall n, In n (ids g) -> ring' (s n) = ring n) ->
+  mol_perm (ren_mol s g) g' -> atoms_order h ring g = Ok l -> NoDup (map snd l) ->
+  exists l', atoms_order h ring' g' = Ok l' /\
+             component_tokens g' (lbl l') tb' o (init_state g') = ren_toks s (component_tokens g (lbl l) tb o (init_state g)).
+Proof. exact canonical_first_component_tokens. Qed.
+Print Assumptions C01_canonical_first_component_tokens.
+
+Theorem C01_first_component_example :
+  wf_mol exb_g1 = true /\ wf_mol ext_g' = true /\ (forall x y, ext_s x = ext_s y -> x = y) /\ mol_perm (ren_mol ext_s exb_g1) ext_g' /\
+  inj_on (ids exb_g1) ext_w /\ (forall n, In n (ids exb_g1) -> ext_w' (ext_s n) = ext_w n) /\
+  component_tokens exb_g1 ext_w (fun n => n) default_opts ext_st =
+    Ok [TAtom 1; TBond 1 2; TAtom 2; TOpen; TBond 2 3; TAtom 3; TClose; TBond 2 4; TAtom 4] /\
+  component_tokens ext_g' ext_w' (fun n => n) default_opts ext_st' =
+    Ok [TAtom 9; TBond 9 8; TAtom 8; TOpen; TBond 8 7; TAtom 7; TClose; TBond 8 6; TAtom 6].
+Proof. exact first_component_example. Qed.
+Print Assumptions C01_first_component_example.
